@@ -145,6 +145,32 @@ def apply_rewrites(text, rewrites, log, where):
     access); at least one rule of each group must fire, otherwise the anchor is lost."""
     groups = {}
     for rw in rewrites:
+        if "macro" in rw:
+            # replace every invocation `name!( ...balanced... )` by rw["replace"]
+            out, pos, n = [], 0, 0
+            pat = rw["macro"] + "!("
+            while True:
+                k = text.find(pat, pos)
+                if k < 0:
+                    break
+                depth, j = 0, k + len(pat) - 1
+                while j < len(text):
+                    if text[j] == "(":
+                        depth += 1
+                    elif text[j] == ")":
+                        depth -= 1
+                        if depth == 0:
+                            break
+                    j += 1
+                out.append(text[pos:k] + rw["replace"])
+                pos = j + 1
+                n += 1
+            out.append(text[pos:])
+            text = "".join(out)
+            log.append({"rule": rw["id"], "where": where, "fired": n})
+            if n < rw.get("min", 0):
+                raise AnchorLost("adapter rule %s did not fire in %s" % (rw["id"], where))
+            continue
         flags = re.M | re.S if rw.get("dotall") else re.M
         if rw.get("replace") is None:
             n = len(re.findall(rw["pattern"], text, flags=flags))
